@@ -99,12 +99,12 @@ example : (Op.mergeNodes "g1" "n" "g2" (some [("Name", .combine), ("Class", .dis
     names the class: `merge_nodes(n, other, {"Class": "overwrite"})` gives the surviving node the other
     node's class.  Known finding `C05:identity:merge_nodes:class-changed`. -/
 theorem identity_merge_class_counterexample :
-    ∃ (s : Store) (op : Op), Store.Inv s ∧ op.WF = true ∧
+    ∃ (s : Store) (op : Op), Store.Inv s ∧
       ∃ n ∈ s.nodes, ∃ m ∈ (Store.step op s).2.nodes, m.iid = n.iid ∧
         AMap.get propClass m.attrs ≠ AMap.get propClass n.attrs := by
   refine ⟨⟨[⟨1, [("GraphID", .str "g1"), ("Class", .str "NetworkNode"), ("NodeID", .str "n")]⟩,
             ⟨2, [("GraphID", .str "g2"), ("Class", .str "Link"), ("NodeID", .str "n")]⟩], [], 3⟩,
-          .mergeNodes "g1" "n" "g2" (some [("Class", .overwrite)]), ?_, rfl, ?_⟩
+          .mergeNodes "g1" "n" "g2" (some [("Class", .overwrite)]), ?_, ?_⟩
   · refine ⟨by decide, by decide, by simp⟩
   · refine ⟨⟨1, [("GraphID", .str "g1"), ("Class", .str "NetworkNode"), ("NodeID", .str "n")]⟩, by simp,
       ⟨1, [("GraphID", .str "g1"), ("Class", .str "Link"), ("NodeID", .str "n")]⟩, ?_, rfl, by decide⟩
@@ -130,7 +130,7 @@ theorem nid_unique (op : Op) (s : Store) (h : Store.Inv s) (hk : op.keepsKeys = 
     ∀ g, UniqueNid (Store.step op s).2 g := Store.nid_unique_step op s h hk hall
 
 /-- … hence in every reachable state -/
-theorem nid_unique_reachable (ops : List Op) (hops : ∀ o ∈ ops, o.WF = true ∧ o.keepsKeys = true) :
+theorem nid_unique_reachable (ops : List Op) (hops : ∀ o ∈ ops, o.keepsKeys = true) :
     ∀ g, UniqueNid (Store.run ops Store.init) g := by
   suffices ∀ s, Store.Inv s → (∀ g, UniqueNid s g) → ∀ g, UniqueNid (Store.run ops s) g from
     this _ Store.inv_init (fun g => by simp [UniqueNid, nodesOf, Store.init])
@@ -140,7 +140,7 @@ theorem nid_unique_reachable (ops : List Op) (hops : ∀ o ∈ ops, o.WF = true 
     intro s hi h
     simp only [Store.run, List.foldl_cons]
     have ho := hops o (by simp)
-    exact ih (fun o' ho' => hops o' (by simp [ho'])) _ (Store.inv_step o s hi ho.1) (nid_unique o s hi ho.2 h)
+    exact ih (fun o' ho' => hops o' (by simp [ho'])) _ (Store.inv_step o s hi) (nid_unique o s hi ho h)
 
 example : (Op.addNode "g" "n" "Link" (some [("Name", .str "x")])).keepsKeys = true := by decide
 example : (Op.addGraph "g" ⟨[[("NodeID", .str "a")], [("NodeID", .str "b")]], []⟩).keepsKeys = true := by decide
@@ -152,12 +152,12 @@ example : (Op.mergeNodes "g" "n" "h" (some [("Name", .combine)])).keepsKeys = tr
     edge of the surviving node `u` and of the absorbed node `v` — is still there with `v` replaced by `u`;
     and every edge afterwards carries, unchanged, the property dictionary of one edge from before (no
     foreign key such as networkx's `contraction`, no mixture of two dictionaries). -/
-theorem merge_keeps_edges (s : Store) (h : Store.Inv s) (g nid g2 : String) (hg : g ≠ g2)
+theorem merge_keeps_edges (s : Store) (g nid g2 : String)
     (pol : Option (List (String × Policy))) (hok : (mergeNodes g nid g2 pol s).1 = .ok .unit) :
     ∃ u v, findNode s g nid = .ok u ∧ findNode s g2 nid = .ok v ∧
       (∀ e ∈ s.edges, (mergeNodes g nid g2 pol s).2.edges.any (edgeMatch (rm u v e.a) (rm u v e.b)) = true) ∧
       (∀ e' ∈ (mergeNodes g nid g2 pol s).2.edges, ∃ e ∈ s.edges, e'.attrs = e.attrs ∧ e'.a = rm u v e.a ∧ e'.b = rm u v e.b) := by
-  obtain ⟨u, v, mine, theirs, np, hu, hv, _, _, _, hs', _, _⟩ := mergeNodes_ok s h g nid g2 hg pol hok
+  obtain ⟨u, v, mine, theirs, np, hu, hv, _, _, _, hs', _, _⟩ := mergeNodes_ok s g nid g2 pol hok
   refine ⟨u, v, hu, hv, ?_, ?_⟩
   · intro e he; rw [hs']; exact contract_keeps_edges s u v e he
   · intro e' he'; rw [hs'] at he'; exact contract_edge_attrs s u v e' he'
@@ -165,13 +165,13 @@ theorem merge_keeps_edges (s : Store) (h : Store.Inv s) (g nid g2 : String) (hg 
 /-- **merge_policy.**  After a successful `merge_nodes` the surviving node has exactly the property names
     it had, and each property follows the policy: keep (`discard` or not mentioned), the other node's value
     (`overwrite`), the pair (`combine`), `None` for an unknown policy word. -/
-theorem merge_policy (s : Store) (h : Store.Inv s) (g nid g2 : String) (hg : g ≠ g2)
+theorem merge_policy (s : Store) (g nid g2 : String)
     (pol : Option (List (String × Policy))) (hok : (mergeNodes g nid g2 pol s).1 = .ok .unit) :
     ∃ u v mine theirs, findNode s g nid = .ok u ∧ findNode s g2 nid = .ok v ∧
       nodeAttrs s u = some mine ∧ nodeAttrs s v = some theirs ∧
       ∃ m ∈ (mergeNodes g nid g2 pol s).2.nodes, m.iid = u ∧ AMap.keys m.attrs = AMap.keys mine ∧
         ∀ k v0, AMap.get k mine = some v0 → AMap.get k m.attrs = some (policyVal pol theirs k v0) := by
-  obtain ⟨u, v, mine, theirs, np, hu, hv, huv, hm, ht, hs', hkeys, hpol⟩ := mergeNodes_ok s h g nid g2 hg pol hok
+  obtain ⟨u, v, mine, theirs, np, hu, hv, huv, hm, ht, hs', hkeys, hpol⟩ := mergeNodes_ok s g nid g2 pol hok
   refine ⟨u, v, mine, theirs, hu, hv, hm, ht, ⟨u, np⟩, ?_, rfl, hkeys, hpol⟩
   rw [hs']
   obtain ⟨nu, hnu, eu, _, _⟩ := findNode_ok s g nid u hu
@@ -199,6 +199,10 @@ theorem merge_failure_atomic (s : Store) (g nid g2 : String) (pol : Option (List
       · rfl
       · rename_i v hv
         simp only [hv] at hf ⊢
+        split
+        · rfl
+        rename_i huv
+        simp only [huv, if_false] at hf
         split
         · rename_i mine theirs hm ht
           simp only [hm, ht] at hf ⊢
@@ -238,16 +242,16 @@ theorem shared_refines_spec (op : Op) (s : Store) (h : Store.Inv s) (hc : AGraph
     store is what the reference model computes from the initial contents (refinement on the addressed graph,
     frame on all others, induction over the history) -/
 theorem shared_refines_history (ops : List Op) (s : Store) (h : Store.Inv s)
-    (hops : ∀ o ∈ ops, o.WF = true ∧ AGraph.covers o = true ∧ o.keepsKeys = true) :
+    (hops : ∀ o ∈ ops, AGraph.covers o = true ∧ o.keepsKeys = true) :
     (fun g => Store.abs (Store.run ops s) g) = AGraph.runAll ops (fun g => Store.abs s g) := by
   induction ops generalizing s with
   | nil => rfl
   | cons o r ih =>
     have ho := hops o (by simp)
     simp only [Store.run, AGraph.runAll, List.foldl_cons]
-    have := ih (Store.step o s).2 (Store.inv_step o s h ho.1) (fun o' ho' => hops o' (by simp [ho']))
+    have := ih (Store.step o s).2 (Store.inv_step o s h) (fun o' ho' => hops o' (by simp [ho']))
     simp only [Store.run, AGraph.runAll] at this
-    rw [this, Store.refines_stepAll o s h ho.2.1 ho.2.2]
+    rw [this, Store.refines_stepAll o s h ho.1 ho.2]
 
 /-- **disjoint_refines_spec.**  The one-graph-per-id backend refines the same reference model on every
     single-graph operation (its property-graph methods are the shared-store methods run on the graph stored
@@ -261,7 +265,7 @@ theorem disjoint_refines_spec (op : Op) (d : DStore.DStore) (h : DStore.Inv d) (
 /-- … and over histories of single-graph operations, for every graph id at once (the graph stored under
     another id is untouched: `C04.dframe`) -/
 theorem disjoint_refines_history (ops : List Op) (d : DStore.DStore) (h : DStore.Inv d)
-    (hops : ∀ o ∈ ops, o.WF = true ∧ DStore.single o = true ∧ o.keepsKeys = true) :
+    (hops : ∀ o ∈ ops, DStore.single o = true ∧ o.keepsKeys = true) :
     (fun g => DStore.abs (DStore.run ops d) g) =
       ops.foldl (fun σ o => fun g => if g = o.target then (AGraph.step o AGraph.empty (σ o.target)).2 else σ g)
         (fun g => DStore.abs d g) := by
@@ -270,14 +274,16 @@ theorem disjoint_refines_history (ops : List Op) (d : DStore.DStore) (h : DStore
   | cons o r ih =>
     have ho := hops o (by simp)
     simp only [DStore.run, List.foldl_cons]
-    have := ih (DStore.step o d).2 (DStore.inv_step o d h ho.1) (fun o' ho' => hops o' (by simp [ho']))
+    have := ih (DStore.step o d).2 (DStore.inv_step o d h) (fun o' ho' => hops o' (by simp [ho']))
     simp only [DStore.run] at this
     rw [this]
     congr 1
     funext g
     by_cases e : g = o.target
-    · simp only [e, if_true]; exact (disjoint_refines_spec o d h ho.2.1 ho.2.2).2
-    · simp only [e, if_false, DStore.abs, DStore.frame_step o d g e]
+    · simp only [e, if_true]; exact (disjoint_refines_spec o d h ho.1 ho.2).2
+    · have hall : o.isDelAll = false := by
+        cases o <;> simp_all [DStore.single, AGraph.covers, Op.isDelAll]
+      simp only [e, if_false, DStore.abs, DStore.frame_step o d g e hall]
 
 /-- **backends_agree.**  If the addressed graph has the same content in both stores, one call returns the
     same result (value or error kind) on both and leaves the graph with the same content on both. -/
